@@ -540,7 +540,9 @@ pub fn bld() -> BoxedStrategy<Bld> {
                 .collect::<Vec<_>>()
         });
     // project names: usual, empty (an unnamed project) and the text the model uses as its own default
-    let pname = prop_oneof![4 => Just("Proyecto generado"), 2 => Just(""), 1 => Just("Nombre del proyecto"), 1 => Just("Reforma 2ª fase & <anexo>")];
+    let pname = prop_oneof![4 => Just("Proyecto generado"), 2 => Just(""), 1 => Just("Nombre del proyecto"), 1 => Just("Reforma 2ª fase & <anexo>"),
+        // long names with accented letters at every offset modulo 3 bytes (tools that shorten names cut by position)
+        1 => Just("añañañañañañañañañañañañañañañañañañañañañañañañañañañañañañañañañañ"), 1 => Just("Bañañañañañañañañañañañañañañañañañañañañañañañañañañañañañañañañañañañ"), 1 => Just("Edañañañañañañañañañañañañañañañañañañañañañañañañañañañañañañañañañañañ")];
     let general = (0u8..32, prop_oneof![Just("Unifamiliar"), Just("Bloque"), Just("UnaBloque"), Just("Terciario"), Just("Gran")], any::<bool>(), 1i32..20, dec2(0.0, 500.0), opt(2, dec2(0.5, 10.0)), pname, prop_oneof![3 => Just(vec![]), 2 => proptest::collection::vec(0u8..4, 1..=10)], prop_oneof![3 => Just(vec![]), 1 => proptest::collection::vec(0u8..2, 1..=10)])
         .prop_map(|(zone, tipo, nuevo, num_viviendas, impulsion, n50, pname, onsite_ele, onsite_acs)| GeneralB { name: pname.to_string(), zone, tipo: tipo.to_string(), nuevo, num_viviendas, impulsion, n50, onsite_ele, onsite_acs });
     (
@@ -840,7 +842,14 @@ pub fn print_bdl(b: &Bld) -> String {
             a.push(kv("Z", f(fl.z)));
         }
         a.push(kv("POLYGON", q(&format!("{}_Poligono1", fl.name))));
-        a.push(kv("FLOOR-HEIGHT", f(fl.height)));
+        // FLOOR-HEIGHT (floor to floor): usually written equal to SPACE-HEIGHT, 0 in files of old LIDER versions, or
+        // larger than it (slab included); the storey height the model uses is the written SPACE-HEIGHT
+        let floor_height = match (b.salt as usize + fl.name.len() + fl.spaces.len()) % 5 {
+            0 => 0.0,
+            1 => fl.height + 0.5,
+            _ => fl.height,
+        };
+        a.push(kv("FLOOR-HEIGHT", f(floor_height)));
         a.push(kv("SPACE-HEIGHT", f(fl.height)));
         if let Some(m) = fl.multiplier {
             a.push(kv("MULTIPLIER", f(m)));
